@@ -21,5 +21,6 @@ ScenarioConforms == Rec.type = "scenario" =>
    /\ Rec.status = "ok"
    /\ Rec.attach_equal /\ Rec.stats_equal /\ Rec.counts_equal /\ Rec.params_equal
    /\ Rec.traj_equal /\ Rec.perso_equal /\ Rec.noise_is_observed_rmse /\ Rec.all_finite
+   /\ Rec.attach_is_observed_sum       \* the attachment is the sum of the entry-wise terms over observed entries only
 Covered == IOEnv.EXPECT_COUNT = "0" \/ Cardinality({<<Log[i].v, Log[i].w, Log[i].c, Log[i].weight_dtype>> : i \in {j \in 1..Len(Log) : Log[j].type = "vector"}}) = atoi(IOEnv.EXPECT_COUNT)
 =============================================================================
